@@ -59,13 +59,16 @@ def registerOnlyWhen : Bool → List Req → Bool
     (r.kind != .newAccount || allow) && registerOnlyWhen (r.answer == .accountDoesNotExist) rest
 
 /-- `jwk` exactly for account creation; creation and contact update signed by the current key, the
-roll-over by the recorded past key; every signature verifies under the key the CA holds. -/
+roll-over by the recorded past key; every signature verifies under the key the CA holds.  Any other
+request (orders, authorisations, …, and the POST-as-GET of the account a client may send before a
+roll-over to learn which key the CA holds): `kid`, signed by one of the account's two keys in play
+(the current one or the recorded past one) — and, as for every request, by the one the CA holds. -/
 def signerOk (r : Req) : Bool :=
   match r.kind with
   | .newAccount => r.jwk && r.signer == .current && r.outerSigOk
   | .accountUpdate => !r.jwk && r.signer == .current && r.outerSigOk
   | .keyChange => !r.jwk && r.signer == .recordedPast && r.outerSigOk && r.innerSigOk
-  | .other => !r.jwk && r.signer == .current && r.outerSigOk
+  | .other => !r.jwk && (r.signer == .current || r.signer == .recordedPast) && r.outerSigOk
 
 def count (k : Kind) (reqs : List Req) : Nat := (reqs.filter fun r => r.kind == k).length
 
